@@ -106,6 +106,12 @@ func c03Run(c *Ctx) {
 			dt = gen.AllDecodable[c.R.Intn(len(gen.AllDecodable))]
 		}
 		mode = c.R.PickInt(gen.FillMixed, gen.FillMixed, gen.FillSpecial, gen.FillSmall, gen.FillUnique)
+		if c.Idx%40000 == 778 { // a large result (code paths that switch on the element count)
+			sa, sb = []int{523, 1}, []int{1, 503}
+			if c.R.Bool() {
+				sa, sb = []int{263069}, []int{263069}
+			}
+		}
 	}
 	a := c.R.Tensor(dt, sa, mode, 50)
 	b := c.R.Tensor(dt, sb, mode, 50)
